@@ -72,8 +72,9 @@ FAMILIES = {
 }
 
 
-# constants of C19.cursor_steps_text (lean/MsqProofs/Props/C19P.lean): cursor operations ≤ PC_A·|text| + PC_B
-PC_A, PC_B = 10 ** 9, 10 ** 9
+# oracle on the implementation's own count (the constant of C19.cursor_steps_linear_select, lean/MsqProofs/Props/C19P.lean, with characters for tokens;
+# proved for the SELECT block of the model only — for the other statement classes this line is a measurement)
+PC_A, PC_B = 1400, 300
 
 
 def micros(ans):
@@ -107,13 +108,13 @@ def run(ctx):
     # comma split) against the same count taken on the implementation from outside (tools/harness/canon_ext_pc.py) — EXACT equality, accepted and rejected texts
     import smallscope
     pc = [(d, t, "corpus") for d, t in pfam.corpus_statements()] + [(d, t, "regression") for d, t in pfam.regression_cases()]
-    pc += pfam.scripts(r.fork("pc"), 300 if quick else 6000, wild=0.2, mutate=0.35)
-    pc += [(d, t, "tree-first") for d, t in pfam.tree_texts(ctx.rng.fork("pc-trees"), 40 if quick else 1500)]
+    pc += pfam.scripts(r.fork("pc"), 200 if quick else 6000, wild=0.2, mutate=0.35)
+    pc += [(d, t, "tree-first") for d, t in pfam.tree_texts(ctx.rng.fork("pc-trees"), 25 if quick else 1500)]
     pc += [("MYSQL", mk(n), "family") for mk in FAMILIES.values() for n in ((3, 17) if quick else (3, 17, 60))]
     for nm in ("select-clauses", "joins", "set-ops", "dml", "update-delete", "ddl-create", "ddl-alter"):
         entry, alpha, n_thorough, n_quick = smallscope.ALPHABETS[nm]
         seqs = list(smallscope.sequences(alpha, 3 if quick else 4))
-        pc += [(dd, t, "small-scope") for t in (seqs if not quick else r.fork("pc-" + nm).shuffle(seqs)[:400]) for dd in ("MYSQL", "HIVE")[:1 if quick else 2]]
+        pc += [(dd, t, "small-scope") for t in (seqs if not quick else r.fork("pc-" + nm).shuffle(seqs)[:300]) for dd in ("MYSQL", "HIVE")[:1 if quick else 2]]
     seen_pc = set()
     pc = [x for x in pc if not ((x[0], x[1]) in seen_pc or seen_pc.add((x[0], x[1])))]
     res, _ = ctx.corr(["PC %s %s" % (d, E.enhex(t)) for d, t, _ in pc], stream="cursor-operations", nontrivial=lambda q, a: a.startswith("OK") or a.startswith("REJ"))
@@ -123,7 +124,7 @@ def run(ctx):
         if a.startswith(("OK ", "REJ ")):
             n_ops = int(a.split(" ")[1])
             worst = max(worst, n_ops / max(1, len(t)))
-            # the proved bound, on the implementation's own count: cursor operations ≤ A·|text| + B (C19.total_steps_linear; A, B below are the theorem's constants)
+            # the bound, on the implementation's own count: cursor operations ≤ A·|text| + B
             if n_ops > PC_A * len(t) + PC_B:
                 pfam.report(ctx, "cursor-operations-bound", {"kind": "input", "entry": "parse_statements", "dialect": d, "input": t, "observed": a,
                                                              "oracle": "c19: at most %d·|text| + %d cursor operations" % (PC_A, PC_B), "how_found": "stream"})
